@@ -32,9 +32,8 @@ def resolveLoc (req : Req) (g : LocGlue) : LocGlue :=
     if g.kPath.isEmpty then
       if g.kQuery.isEmpty && !g.kForceQuery then { t with kPath := req.path, kQuery := req.query, kForceQuery := req.forceQuery }
       else { t with kPath := req.path }
-    else match g.kPath with
-      | '/' :: _ => t
-      | _ => { t with kPath := (req.path.reverse.dropWhile (· ≠ '/')).reverse ++ g.kPath }
+    else if g.kPath.head? = some '/' then t
+    else { t with kPath := (req.path.reverse.dropWhile (· ≠ '/')).reverse ++ g.kPath }
 
 /-- the URL key of the (resolved) Location / Content-Location URL -/
 def LocGlue.key (g : LocGlue) : Str := makeURLKeyQ g.kScheme g.kHost g.kPath g.kQuery g.kOpaq g.kForceQuery
